@@ -29,6 +29,10 @@ type Op struct {
 	Ctx   int    `json:"ctx,omitempty"`   // log: -1 nil, -2 plain context.Context, -3 object with Cid(), >=0 index of an earlier context of this goroutine
 	Cid   int    `json:"cid,omitempty"`   // for the object
 	Msg   string `json:"msg,omitempty"`
+	// alias: the parent the alias is derived from: 0 = context.Background(), k>0 = this goroutine's earlier context k-1 (which carries an id of its own)
+	Parent int  `json:"parent,omitempty"`
+	NL     bool `json:"nl,omitempty"`    // log, Printf-style functions: the format ends with a newline of its own
+	Spare  int  `json:"spare,omitempty"` // log: the arguments are passed as a slice (args...) with that much spare capacity
 }
 
 type Case struct {
@@ -71,33 +75,51 @@ type expect struct {
 	msg   string
 }
 
-func logWith(level string, ctx logger.Context, tok, msg string) {
+// logWith makes the call; spare > 0 passes the arguments as an application slice with spare
+// capacity and reports an error if the call wrote into it.
+func logWith(level string, ctx logger.Context, tok, msg string, nl bool, spare int) error {
+	format := "%s %s"
+	if nl {
+		format += "\n"
+	}
+	a := make([]interface{}, 2, 2+spare)
+	a[0], a[1] = tok, msg
 	switch level {
 	case "T":
-		logger.T(ctx, tok, msg)
+		logger.T(ctx, a...)
 	case "Tf":
-		logger.Tf(ctx, "%s %s", tok, msg)
+		logger.Tf(ctx, format, a...)
 	case "W":
-		logger.W(ctx, tok, msg)
+		logger.W(ctx, a...)
 	case "Wf":
-		logger.Wf(ctx, "%s %s", tok, msg)
+		logger.Wf(ctx, format, a...)
 	case "E":
-		logger.E(ctx, tok, msg)
+		logger.E(ctx, a...)
 	case "Ef":
-		logger.Ef(ctx, "%s %s", tok, msg)
+		logger.Ef(ctx, format, a...)
 	case "I":
-		logger.I(ctx, tok, msg)
+		logger.I(ctx, a...)
 	case "If":
-		logger.If(ctx, "%s %s", tok, msg)
+		logger.If(ctx, format, a...)
 	case "TP":
-		logger.Trace.Println(ctx, tok, msg)
+		logger.Trace.Println(ctx, a...)
 	case "WP":
-		logger.Warn.Println(ctx, tok, msg)
+		logger.Warn.Println(ctx, a...)
 	case "EP":
-		logger.Error.Println(ctx, tok, msg)
+		logger.Error.Println(ctx, a...)
 	case "TPf":
-		logger.Trace.Printf(ctx, "%s %s", tok, msg)
+		logger.Trace.Printf(ctx, format, a...)
 	}
+	full := a[:cap(a)]
+	if full[0] != interface{}(tok) || full[1] != interface{}(msg) {
+		return fmt.Errorf("logging call %s changed the argument slice it was given: %v", tok, full)
+	}
+	for _, x := range full[2:] {
+		if x != nil {
+			return fmt.Errorf("logging call %s wrote into the spare capacity of the argument slice it was given: %v", tok, full)
+		}
+	}
+	return nil
 }
 
 func levelLabel(level string) string {
@@ -124,6 +146,7 @@ func runCase(c Case) (st stats, err error) {
 
 	var mu sync.Mutex
 	var expects []expect
+	var argErr error
 	aliasOf := map[string]string{} // ctx name -> source ctx name (must carry the same id)
 	fresh := []string{}            // ctx names that must carry ids distinct from everything else
 	start := make(chan struct{})
@@ -149,7 +172,11 @@ func runCase(c Case) (st stats, err error) {
 					} else {
 						switch {
 						case op.Src >= 0 && op.Src < len(ctxs):
-							ctx = logger.AliasContext(context.Background(), ctxs[op.Src])
+							parent := context.Background()
+							if op.Parent > 0 && op.Parent <= len(ctxs) {
+								parent = ctxs[op.Parent-1]
+							}
+							ctx = logger.AliasContext(parent, ctxs[op.Src])
 							mu.Lock()
 							aliasOf[name] = names[op.Src]
 							mu.Unlock()
@@ -195,7 +222,13 @@ func runCase(c Case) (st stats, err error) {
 						ctx = nil
 						e.kind = "nil"
 					}
-					logWith(op.Level, ctx, tok, op.Msg)
+					if err := logWith(op.Level, ctx, tok, op.Msg, op.NL, op.Spare); err != nil {
+						mu.Lock()
+						if argErr == nil {
+							argErr = err
+						}
+						mu.Unlock()
+					}
 					if e.level != "" {
 						mu.Lock()
 						expects = append(expects, e)
@@ -207,6 +240,9 @@ func runCase(c Case) (st stats, err error) {
 	}
 	close(start)
 	wg.Wait()
+	if argErr != nil {
+		return st, argErr
+	}
 
 	st.goroutines = len(c.G)
 	w.mu.Lock()
@@ -322,7 +358,7 @@ func genCase(t *rapid.T) Case {
 				nctx++
 			case k == 4:
 				src := rapid.IntRange(-2, nctx-1).Draw(t, "src")
-				ops = append(ops, Op{Op: "alias", Src: src, Dead: rapid.IntRange(0, 5).Draw(t, "adead") == 0})
+				ops = append(ops, Op{Op: "alias", Src: src, Dead: rapid.IntRange(0, 5).Draw(t, "adead") == 0, Parent: rapid.IntRange(0, nctx).Draw(t, "parent")})
 				nctx++
 			default:
 				o := Op{Op: "log", Level: rapid.SampledFrom(levels).Draw(t, "level"), Msg: rapid.StringMatching(`[ -$&-~]{0,24}`).Draw(t, "msg")}
@@ -331,6 +367,10 @@ func genCase(t *rapid.T) Case {
 				if o.Ctx == -3 {
 					o.Cid = rapid.SampledFrom([]int{0, 7, 1000, -1, 1 << 40}).Draw(t, "cid")
 				}
+				if strings.HasSuffix(o.Level, "f") {
+					o.NL = rapid.IntRange(0, 3).Draw(t, "nl") == 0
+				}
+				o.Spare = rapid.SampledFrom([]int{0, 0, 1, 2, 3, 8}).Draw(t, "spare")
 				ops = append(ops, o)
 			}
 		}
@@ -340,11 +380,11 @@ func genCase(t *rapid.T) Case {
 }
 
 var rec = ev.New(prop, "concurrent-logging",
-	"rapid-generated histories: N in {1,2,4,8,16,32} goroutines released together, each running up to 60 ops: WithContext, AliasContext (source: own earlier context / nil / context without id), logging through "+
-		"T,Tf,W,Wf,E,Ef,I,If and the Logger interface with printable messages and context kinds {nil, object with Cid(), library context, plain context.Context}; a recording io.WriteCloser installed with Switch keeps each Write call; "+
+	"rapid-generated histories: N in {1,2,4,8,16,32} goroutines released together, each running up to 60 ops: WithContext, AliasContext (source: own earlier context / nil / context without id; parent: background or an earlier context with an id of its own), logging through "+
+		"T,Tf,W,Wf,E,Ef,I,If and the Logger interface with printable messages (Printf-style formats optionally ending in a newline; arguments optionally passed as a slice with spare capacity, which must come back untouched) and context kinds {nil, object with Cid(), library context, plain context.Context}; a recording io.WriteCloser installed with Switch keeps each Write call; "+
 		"oracle: ids pairwise distinct in the whole process, alias id == source id, one Write call per non-Info call = exactly one complete line with the label, pid, cid of the context passed and the intact message, "+
 		"race detector silent; non-trivial = >=2 goroutines that create contexts").
-	Require("parallel", "obj-ctx", "alias")
+	Require("parallel", "obj-ctx", "alias", "alias-onto-identified-parent", "format-ends-with-newline", "args-with-spare-capacity")
 
 func TestConcurrentLogging(t *testing.T) {
 	ev.Rapid(t, "concurrent-logging", 600, 80000, func(t *rapid.T) {
@@ -367,6 +407,15 @@ func TestConcurrentLogging(t *testing.T) {
 				}
 				if o.Op == "alias" && o.Src >= 0 {
 					cl = append(cl, "alias")
+					if o.Parent > 0 && o.Parent-1 != o.Src {
+						cl = append(cl, "alias-onto-identified-parent")
+					}
+				}
+				if o.Op == "log" && o.NL {
+					cl = append(cl, "format-ends-with-newline")
+				}
+				if o.Op == "log" && o.Spare > 0 {
+					cl = append(cl, "args-with-spare-capacity")
 				}
 			}
 		}
